@@ -30,6 +30,19 @@ CLAIMED["C09"] = ("Deductive proof with a typestate ghost (closes) on every stre
          "Trusted: gvc, SMT solvers. Assumed: the consumer calls Close on a wrapper at most once and not concurrently with Next (the documented contract). Not covered: Merge, Batch, parallel.MapStream (owners are goroutines). A genuine defect (stream.One never closed its stream) was repaired by a fix: commit.",
          "4.9", CLAIMED["C06"][3])
 
+CLAIMED["C12"] = ("Partial deductive proof: chans.Merge for arities 1-3 (arity 1 directly, 2 and 3 through merge2/merge3) and chans.Replicate as single-goroutine code under a sequential channel view with nondeterministic select: ghost tag sequences show the output is an interleaving of the consumed input prefixes (nothing lost, duplicated or invented, per-input order kept), and the function returns exactly when every input has been consumed and seen closed.",
+         "Trusted: gvc and its sequential channel model (receive completes with a pending value or on a closed channel; select picks any arm whose channel is not nil; blocking, buffering and fairness are not modelled), SMT solvers. Not covered: arity 0 and >= 4 (reflect.Select path, cut by a reported assume), stream.Merge (goroutines), every blocking/liveness clause.",
+         "4.10", CLAIMED["C06"][3])
+CLAIMED["C18"] = ("Partial deductive proof of the sequential clauses: every typed xsync.Map wrapper equals the assumed sync.Map contract on every key state, verified for value types that are not interfaces and for ones that are (a stored nil interface, an absent key); Future: Fill once (panics, value untouched, on the second), Wait/WaitContext return the filled value, WaitContext returns ctx.Err() only through the Done arm; Watchable: Value returns the last Set value (zero before) with the channel of the current cell, which is open until the next Set closes exactly it.",
+         "Trusted: gvc, the sequential channel and atomic.Pointer models, assumed contracts of sync.Map/atomic.Pointer/context. Not covered: every interleaving clause (Value racing the first Set, Fill racing Wait, concurrent first calls of a Lazy); Lazy is sync.OnceValue (trusted). Two genuine defects repaired by fix: commits.",
+         "4.12", CLAIMED["C06"][3])
+CLAIMED["C19"] = ("Deductive proof of functional contracts of the pure helpers with loop invariants, pure callbacks as uninterpreted functions, ghost permutations and maps as (domain, value) functions: xslices All/Chunk/Clear/Fill/Count(Func)/Join/LastIndex(Func)/Map/Partition/Reduce/RemoveUnordered/Repeat/Reverse/Shrink, xsort order algebra and Search, xmath Abs (per integer width, exact wrap)/Min/Max/Clamp, xmaps ToIndex/FromKeysAndValues/Set/SetFromSlice/Difference.",
+         "Trusted: gvc, SMT solvers, assumed contracts of package slices/sort. Assumed: orders are strict weak orders, callbacks pure, NaN not modelled. Not yet under contract (listed in evidence): xslices Runs/Unique/Group and the go1.21 delegations, xsort Merge/MergeSlices/MinK, xmaps Reverse/Union/Intersection, xerrors, xrand; uniformity of sampling is probabilistic and not decidable here.",
+         "4.13", CLAIMED["C06"][3])
+CLAIMED["C20"] = ("Partial deductive proof: SleepContext's decision logic (nil at once iff d <= 0; DeadlineTooSoonError with the right fields iff a deadline closer than d, before any timer exists; otherwise nil only through the arm of a timer created with exactly d, ctx.Err() only through the Done arm); JitterTicker argument validation (panics iff d <= 0 or jitter >= d), no panic for 0 <= jitter < d, every scheduled delay within [d-jitter, d+jitter], Stop and Reset advance the generation that pending callbacks compare against.",
+         "Trusted: gvc, assumed contracts of time.NewTimer/AfterFunc/Until, context, math/rand, sync.Mutex; wall-clock behaviour of timers. Not covered: the callback body's generation check is argued on paper from Stop's proved postcondition; Stop/Reset racing a firing timer; tick spacing as observed on the channel.",
+         "4.14", CLAIMED["C06"][3])
+
 NOT_APPLICABLE = {
  "C10": "stream.Pipe: every clause is quantified over goroutine interleavings and the runtime's choice among ready select arms; a sequential contract verifier has no model of several goroutines sharing channels (DESIGN.md section 6).",
  "C11": "stream.Batch: three goroutines, a timer and an unbuffered hand-over; partition, max-wait and 'Close always returns' are schedule and liveness statements, not expressible as per-call contracts (DESIGN.md section 6).",
